@@ -94,13 +94,23 @@ def run(ctx, scn):
     if "OLDPWD" in env:
         del env["OLDPWD"]
     conf = scn["conf"]
-    env["AUTO_PUSHD"] = bool(conf["autoPushd"])
-    env["PUSHD_MINUS"] = bool(conf["pushdMinus"])
-    env["DIRSTACK_SIZE"] = int(conf["size"])
-    env["CDPATH"] = [_path(root, p) for p in conf["cdpath"]]
+
+    def apply_conf(c):
+        env["AUTO_PUSHD"] = bool(c["autoPushd"])
+        env["PUSHD_MINUS"] = bool(c["pushdMinus"])
+        env["DIRSTACK_SIZE"] = int(c["size"])
+        env["CDPATH"] = [_path(root, p) for p in c["cdpath"]]
+
+    apply_conf(conf)
     env["PUSHD_SILENT"] = False
     steps = []
+    todo = []
     for st in scn["steps"]:
+        todo.append(st)
+        if st["cmd"] in ("cd", "pushd", "popd", "dirs") and scn.get("fixcwd", True):
+            # an interactive shell resynchronises after every command (BaseShell._fix_cwd)
+            todo.append({"cmd": "fixcwd", "arg": {"kind": "none", "path": [], "n": 0}, "flag": False})
+    for st in todo:
         cmd = st["cmd"]
         rtn, out, err = 0, "", ""
         if cmd in ("cd", "pushd", "popd", "dirs"):
@@ -110,6 +120,10 @@ def run(ctx, scn):
             os.rmdir(_path(root, st["arg"]["path"]))
         elif cmd == "mkdir":
             os.mkdir(_path(root, st["arg"]["path"]))
+        elif cmd == "fixcwd":
+            BaseShell._fix_cwd(_FakeShell())
+        elif cmd == "setconf":
+            apply_conf(st["conf"])
         elif cmd == "extchdir":
             os.chdir(_path(root, st["arg"]["path"]))
             BaseShell._fix_cwd(_FakeShell())
@@ -131,6 +145,6 @@ def run(ctx, scn):
             "rtn": rtn,
             "out": [_to_model(root, p) for p in out.split("\n") if p] if cmd == "dirs" and rtn == 0 else [],
         }
-        steps.append({"cmd": cmd, "arg": st["arg"], "flag": st["flag"], "obs": obs, "err": (err or "")[:200]})
+        steps.append({"cmd": cmd, "arg": st["arg"], "flag": st["flag"], "conf": st.get("conf", conf), "obs": obs, "err": (err or "")[:200]})
     os.chdir(root)
     return {"conf": conf, "steps": steps}
